@@ -33,6 +33,7 @@ namespace {
       int alloc = 0;                 // 0 malloc, 1 ascending, 2 descending, 3 alternating
       bool pre_noise = false;
       bool reverse = false;
+      int locus = 0;                 // 0 every located node on a line of its own; 1 all on one line of one file, columns differ; 2 all at the same position
       std::vector<int> noise_at;     // construction steps before which noise is injected
       std::vector<int> print_at;     // construction steps before which the unit built so far is printed (and the text discarded)
       std::string text() const
@@ -40,6 +41,8 @@ namespace {
          std::string s = alloc == 0 ? "plain" : alloc == 1 ? "ascending-arena" : alloc == 2 ? "descending-arena" : "alternating-arena";
          if (pre_noise) s += "+1000-unrelated-nodes-first";
          if (reverse) s += "+subterms-built-in-reverse";
+         if (locus == 1) s += "+all-located-nodes-on-one-line";
+         if (locus == 2) s += "+all-located-nodes-at-one-position";
          for (int k : noise_at) s += "+noise-before-step-" + std::to_string(k);
          for (int k : print_at) s += "+unit-printed-before-step-" + std::to_string(k);
          return s;
@@ -202,7 +205,9 @@ namespace {
       // ---- located nodes: file/line/column a function of the node's position in the program ----
       template<class S> void locate(S* s, int path)
       {
-         const unsigned file = 1 + unsigned(path) % 3, line = 10 + unsigned(path), col = path % 2 ? 0 : 5 + unsigned(path) % 7;
+         unsigned file = 1 + unsigned(path) % 3, line = 10 + unsigned(path), col = path % 2 ? 0 : 5 + unsigned(path) % 7;
+         if (env.locus == 1) { file = 2; line = 7; col = 1 + unsigned(path); }
+         if (env.locus == 2) { file = 2; line = 7; col = 3; }
          s->src_locus = ipr::Source_location{ ipr::Line_number{ line }, ipr::Column_number{ col }, ipr::File_index{ file } };
          std::string tok = "F" + std::to_string(file) + ":" + std::to_string(line);
          if (col) tok += ":" + std::to_string(col);
@@ -593,7 +598,7 @@ namespace {
       std::vector<long long> noise(env.noise_at.begin(), env.noise_at.end());
       std::vector<long long> prints(env.print_at.begin(), env.print_at.end());
       rep.violation(key, rank, what + " [program: " + prog_text(p) + "; history: " + env.text() + "]",
-                    vf::JObj{}.str("pass", "C17").raw("ops", vf::jarr(prog_ops(p))).num("alloc", env.alloc).num("pre_noise", env.pre_noise).num("reverse", env.reverse).raw("noise_at", vf::jarr(noise)).raw("print_at", vf::jarr(prints)).done());
+                    vf::JObj{}.str("pass", "C17").raw("ops", vf::jarr(prog_ops(p))).num("alloc", env.alloc).num("pre_noise", env.pre_noise).num("reverse", env.reverse).num("locus", env.locus).raw("noise_at", vf::jarr(noise)).raw("print_at", vf::jarr(prints)).done());
       if (verbose) std::printf("  VIOLATION %s: %s [%s]\n", key.c_str(), what.c_str(), env.text().c_str());
    }
 
@@ -635,6 +640,20 @@ namespace {
             for (auto& t : base.tokens) if (std::find(found.begin(), found.end(), t) == found.end()) { fail("C17:location-missing:" + fam, 2, p, plain, std::string("with location printing on (") + (k ? "third" : "second") + " fresh printer) the located node's token '" + t + "' does not appear"); break; }
             for (auto& t : found) if (std::find(base.tokens.begin(), base.tokens.end(), t) == base.tokens.end()) { fail("C17:location-invented:" + fam, 2, p, plain, "the token '" + t + "' appears but no located node carries it"); break; }
          }
+      }
+      // located nodes that share a line, or a whole position: each still shows its own location (as often as it is carried)
+      if (base.outcome == "completed") for (int mode = 1; mode <= 2; ++mode) {
+         Env e; e.locus = mode;
+         Result r = run(p, e);
+         rep.count("transitions");
+         rep.count("traces");
+         if (r.outcome != base.outcome) { fail("C17:outcome-depends-on-locations:" + fam, 3, p, e, "printing ends with " + r.outcome + " when located nodes share a line"); continue; }
+         if (r.off != base.off) fail("C17:locations-change-other-text:" + fam, 3, p, e, "the text printed with locations off depends on the positions the nodes carry " + first_difference(base.off, r.off));
+         std::string stripped; std::vector<std::string> found;
+         strip_tokens(r.on, stripped, found);
+         if (stripped != base.off) fail("C17:locations-change-other-text:" + fam, 3, p, e, "with location printing on the text differs from the off-text by more than location tokens " + first_difference(base.off, stripped));
+         for (auto& t : r.tokens) if (std::count(found.begin(), found.end(), t) < std::count(r.tokens.begin(), r.tokens.end(), t)) { fail("C17:location-missing:" + fam, 3, p, e, "the token '" + t + "' is carried by " + std::to_string(std::count(r.tokens.begin(), r.tokens.end(), t)) + " located node(s) and appears " + std::to_string(std::count(found.begin(), found.end(), t)) + " time(s)"); break; }
+         for (auto& t : found) if (std::find(r.tokens.begin(), r.tokens.end(), t) == r.tokens.end()) { fail("C17:location-invented:" + fam, 3, p, e, "the token '" + t + "' appears but no located node carries it"); break; }
       }
       // histories
       std::vector<Env> envs;
